@@ -35,12 +35,7 @@ func (f *Foto) GetLunar() *Lunar {
 }
 
 func (f *Foto) GetYear() int {
-	sy := f.lunar.GetSolar().GetYear()
-	y := sy - DEAD_YEAR
-	if sy == f.lunar.GetYear() {
-		y++
-	}
-	return y
+	return f.lunar.GetYear() - DEAD_YEAR + 1
 }
 
 func (f *Foto) GetMonth() int {
